@@ -397,6 +397,9 @@ pub fn scenarios(tier: Tier) -> Vec<Scenario> {
 pub fn run_schedules(ctx: &Ctx, acc: &mut Acc) -> Result<(), String> {
     let tier = ctx.tier;
     let scs = scenarios(tier);
+    // the schedule phase has its own wall-clock budget (the histories before it may have used up the process-wide one, and a
+    // canary cut short by the clock would look like a blind explorer)
+    set_time_cap(tier.pick(800.0, 1200.0));
     // ---- canary: the explorer must find the planted impurity with one preemption
     {
         let sc = &scs[0];
@@ -451,6 +454,11 @@ pub fn run_schedules(ctx: &Ctx, acc: &mut Acc) -> Result<(), String> {
         acc.hist("preemption_bound_completed", &format!("{}:p={bound}", sc.name));
         if st.schedules >= cap {
             acc.inc("schedule_cap_hit");
+        }
+        let capped = CAPPED_WORKERS.swap(0, std::sync::atomic::Ordering::SeqCst);
+        if capped > 0 || time_up() {
+            acc.inc("schedule_cap_hit");
+            acc.add("items_skipped_by_time_cap", capped.max(1) as u64);
         }
         if st.diverged > 0 {
             return Err(format!("scenario {si}: {} schedules diverged while replaying a prefix", st.diverged));
@@ -518,6 +526,8 @@ pub fn worker_main(args: &[String]) -> i32 {
     0
 }
 
+static CAPPED_WORKERS: std::sync::atomic::AtomicUsize = std::sync::atomic::AtomicUsize::new(0);
+
 fn explore_in_processes(si: usize, bound: usize, tier: Tier) -> Result<ExploreStats, String> {
     let exe = std::env::current_exe().map_err(|e| e.to_string())?;
     let nparts = 16usize;
@@ -542,7 +552,9 @@ fn explore_in_processes(si: usize, bound: usize, tier: Tier) -> Result<ExploreSt
         total.abandoned += v["abandoned"].as_u64().unwrap_or(0);
         total.diverged += v["diverged"].as_u64().unwrap_or(0);
         if v["time_up"].as_bool().unwrap_or(false) {
-            return Err("schedule worker hit its time cap".into());
+            // a worker that ran out of time explored a prefix of its partition: coverage is incomplete, not a verdict
+            total.abandoned += 1;
+            CAPPED_WORKERS.fetch_add(1, std::sync::atomic::Ordering::SeqCst);
         }
         for m in v["mismatches"].as_array().cloned().unwrap_or_default() {
             total.mismatches.push((m["choices"].as_array().unwrap().iter().map(|x| x.as_u64().unwrap() as usize).collect(), m["thread"].as_u64().unwrap() as usize));
